@@ -98,7 +98,8 @@ def gen_case(rng, n_steps, trace):
         for k in range(len(steps)):
             if rng.random() < 0.6:
                 reported[k] = ground(1)
-    return {'cmd': 'ktrace', 'trace': trace, 'optimize': rng.random() < 0.5, 'reported': reported,
+    rule_substs = {str(i): {v: ground(1) for v in set(vars_of(r['l'])) | set(vars_of(r['r']))} for i, r in enumerate(rules)}
+    return {'cmd': 'ktrace', 'trace': trace, 'optimize': rng.random() < 0.5, 'reported': reported, 'rule_substs': rule_substs,
             'definition': {'sorts': sorts, 'symbols': symbols, 'rules': rules}, 'init': init, 'steps': steps}
 
 
